@@ -228,9 +228,9 @@ pub fn def() -> PropDef {
         rule: "ecube: cases = (nv, a, b, assignments): exclusive cubes are build descriptions over variables < nv (nv in 0..=32) — one, zero, nth_var(_inv), from_vars with repeated variables, chains of ^ (4 reference forms) and ! (2 forms) — with the parity model computed by the harness. Checked: vars()/value(0) read back the model; value(m) = parity ^ xnor on all assignments (nv<=5) and generated 32-bit ones; is_zero/is_one/num_lits/num_gates; == iff same function; ^ and ! pointwise and structurally. Exhaustive: all ordered pairs of the 2^(n+1) terms for n<=4 (quick) / n<=5 (thorough). all: Ecube::all(n) yields 2^(n+1) distinct terms over variables < n, n<=10 (14 thorough). soes: cases = (n<=8, Soes description: zero/one/nth_var(_inv)/from_cubes of up to 6 generated terms, | in 4 forms); value(m) = OR of the term values on every assignment, Lut::from(&s) and Lut::from(s) tabulate exactly that, is_zero => constant 0, is_one => constant 1, num_cubes/num_lits; exhaustive over all lists of <= 2 terms for n<=3 (quick), <= 3 terms for n<=4 plus a 100 000-list stride sample of 4-term lists (thorough). Non-trivial = two multi-variable terms sharing a variable (ecube) / overlapping terms and a non-constant function (soes).",
         assumptions: vec!["variables < 32 (u32 masks); Soes::from_cubes is given variables < n as it requires"],
         subs: vec![
-            Box::new(Sub { name: "ecube", rule: "see property rule", strategy, cases: (40_000, 2_000_000), exhaustive: Some(enumerate), exhaustive_note: "all ordered pairs of exclusive cubes, all assignments, n<=4 (quick) / n<=5 (thorough)", run }),
+            Box::new(Sub { name: "ecube", rule: "see property rule", strategy, cases: (300_000, 4_000_000), exhaustive: Some(enumerate), exhaustive_note: "all ordered pairs of exclusive cubes, all assignments, n<=4 (quick) / n<=5 (thorough)", run }),
             Box::new(Sub { name: "all", rule: "enumeration", strategy: strategy_all, cases: (0, 0), exhaustive: Some(enumerate_all), exhaustive_note: "n in 0..=10 (quick) / 0..=14 (thorough)", run: run_all }),
-            Box::new(Sub { name: "soes", rule: "see property rule", strategy: strategy_soes, cases: (20_000, 1_000_000), exhaustive: Some(enumerate_soes), exhaustive_note: "all term lists of length <= 2 over n<=3 (quick); length <= 3 over n<=4 plus strided 4-term lists (thorough)", run: run_soes }),
+            Box::new(Sub { name: "soes", rule: "see property rule", strategy: strategy_soes, cases: (200_000, 2_000_000), exhaustive: Some(enumerate_soes), exhaustive_note: "all term lists of length <= 2 over n<=3 (quick); length <= 3 over n<=4 plus strided 4-term lists (thorough)", run: run_soes }),
         ],
     }
 }
